@@ -328,3 +328,79 @@ Proof.
 Qed.
 
 End BookProofs.
+
+(* ------------------------------------------------------------------ the concrete wallet (BIP32 key material) *)
+Lemma dpath_is_derive_with : forall p x, dpath xkey lib_subkey x p = derive_with lib_subkey x p.
+Proof. induction p as [|e r IH]; intros x; simpl; [reflexivity|]. destruct (lib_subkey x e); auto. Qed.
+
+Lemma wallet_keys_from_master : forall net wt acct seed m w ops k,
+  spec_master seed = Some m ->
+  wallet_from_seed net wt acct seed = Some w ->
+  In k (ws_keys (wallet_run w ops)) ->
+  derive_with lib_subkey m (k_path k) = Some (k_x k).
+Proof.
+  intros net wt acct seed m w ops k Hm Hw Hk. unfold wallet_from_seed in Hw. rewrite Hm in Hw.
+  destruct (reachable_inv xkey lib_subkey _ _ _ _ _ _ _ _ ops Hw) as [A _].
+  rewrite <- dpath_is_derive_with. apply A. exact Hk.
+Qed.
+
+Lemma wallet_no_repeats : forall net wt acct seed w ops,
+  wallet_from_seed net wt acct seed = Some w ->
+  NoDup (map k_path (ws_keys (wallet_run w ops))).
+Proof.
+  intros net wt acct seed w ops Hw. unfold wallet_from_seed in Hw.
+  destruct (spec_master seed) as [m|]; [|discriminate].
+  destruct (reachable_inv xkey lib_subkey _ _ _ _ _ _ _ _ ops Hw) as [_ B]. exact B.
+Qed.
+
+Lemma wallet_rows_unique : forall net wt acct seed w ops k1 k2,
+  wallet_from_seed net wt acct seed = Some w ->
+  In k1 (ws_keys (wallet_run w ops)) -> In k2 (ws_keys (wallet_run w ops)) ->
+  k_path k1 = k_path k2 -> k1 = k2.
+Proof.
+  intros net wt acct seed w ops k1 k2 Hw H1 H2 E.
+  eapply nodup_map_inj; eauto. eapply wallet_no_repeats; eauto.
+Qed.
+
+(* two wallets made from the same seed — whatever their histories — agree on the key at every position *)
+Lemma restore_same_material : forall seed net1 wt1 acct1 w1 ops1 net2 wt2 acct2 w2 ops2 k1 k2,
+  wallet_from_seed net1 wt1 acct1 seed = Some w1 ->
+  wallet_from_seed net2 wt2 acct2 seed = Some w2 ->
+  In k1 (ws_keys (wallet_run w1 ops1)) -> In k2 (ws_keys (wallet_run w2 ops2)) ->
+  k_path k1 = k_path k2 -> k_x k1 = k_x k2.
+Proof.
+  intros seed net1 wt1 acct1 w1 ops1 net2 wt2 acct2 w2 ops2 k1 k2 H1 H2 I1 I2 E.
+  destruct (spec_master seed) as [m|] eqn:Hm.
+  - pose proof (wallet_keys_from_master _ _ _ _ _ _ _ _ Hm H1 I1) as A.
+    pose proof (wallet_keys_from_master _ _ _ _ _ _ _ _ Hm H2 I2) as B.
+    rewrite E in A. congruence.
+  - unfold wallet_from_seed in H1. rewrite Hm in H1. discriminate.
+Qed.
+
+Lemma restore_same_address : forall seed net1 wt1 acct1 w1 ops1 net2 wt2 acct2 w2 ops2 k1 k2,
+  wallet_from_seed net1 wt1 acct1 seed = Some w1 ->
+  wallet_from_seed net2 wt2 acct2 seed = Some w2 ->
+  In k1 (ws_keys (wallet_run w1 ops1)) -> In k2 (ws_keys (wallet_run w2 ops2)) ->
+  k_path k1 = k_path k2 -> k_net k1 = k_net k2 -> k_wt k1 = k_wt k2 ->
+  key_address k1 = key_address k2 /\ key_wif k1 = key_wif k2.
+Proof.
+  intros seed net1 wt1 acct1 w1 ops1 net2 wt2 acct2 w2 ops2 k1 k2 H1 H2 I1 I2 E En Ew.
+  pose proof (restore_same_material _ _ _ _ _ _ _ _ _ _ _ _ _ H1 H2 I1 I2 E) as Ex.
+  unfold key_address, key_wif. rewrite En, Ew, Ex. auto.
+Qed.
+
+(* the account-level wallet (watch-only or private): every key is the library derivation of the supplied
+   account key along its stored relative path, and rows are unique *)
+Lemma account_wallet_keys : forall net wt acct seed private m coin a w ops k,
+  spec_master seed = Some m -> coin_of net = Some coin ->
+  spec_derive m (account_path wt coin acct) = Some a ->
+  wallet_from_account_key net wt acct seed private = Some w ->
+  In k (ws_keys (wallet_run w ops)) ->
+  derive_with lib_subkey (if private then a else spec_neuter a) (k_path k) = Some (k_x k) /\
+  NoDup (map k_path (ws_keys (wallet_run w ops))).
+Proof.
+  intros net wt acct seed private m coin a w ops k Hm Hc Ha Hw Hk.
+  unfold wallet_from_account_key in Hw. rewrite Hm, Hc, Ha in Hw.
+  destruct (reachable_inv xkey lib_subkey _ _ _ _ _ _ _ _ ops Hw) as [A B].
+  split; [|exact B]. rewrite <- dpath_is_derive_with. apply A. exact Hk.
+Qed.
